@@ -64,6 +64,12 @@ fn storage(_t: &JsValue, args: &[JsValue], _ctx: &mut Context) -> JsResult<JsVal
     Ok(JsValue::new(boa_engine::JsString::from(name)))
 }
 
+/// host function `__gc()`: run a full collection now
+fn gc_now(_t: &JsValue, _args: &[JsValue], _ctx: &mut Context) -> JsResult<JsValue> {
+    boa_gc::force_collect();
+    Ok(JsValue::undefined())
+}
+
 pub fn take_out() -> Vec<String> {
     OUT.with(|o| std::mem::take(&mut *o.borrow_mut()))
 }
@@ -100,6 +106,7 @@ fn setup_context(mut ctx: Context, l: Limits) -> Context {
     ctx.register_global_builtin_callable(js_string!("print"), 0, NativeFunction::from_fn_ptr(print)).expect("print");
     ctx.register_global_builtin_callable(js_string!("__detach"), 1, NativeFunction::from_fn_ptr(detach)).expect("detach");
     ctx.register_global_builtin_callable(js_string!("__storage"), 1, NativeFunction::from_fn_ptr(storage)).expect("storage");
+    ctx.register_global_builtin_callable(js_string!("__gc"), 0, NativeFunction::from_fn_ptr(gc_now)).expect("gc");
     ctx
 }
 
